@@ -1010,20 +1010,27 @@ func (view *View) replace(ctx context.Context, flags *option.Flags, fields []par
 		replacedRecord[i] = false
 	}
 	replaceMtx := &sync.Mutex{}
-	var replaced = func(idx int) {
+	var replaced = func(idx int, first bool) {
 		replaceMtx.Lock()
 		replacedRecord[idx] = true
-		replacedCount++
+		if first {
+			replacedCount++
+		}
 		replaceMtx.Unlock()
 	}
 	if err := NewGoroutineTaskManager(view.RecordLen(), -1, flags.CPU).Run(ctx, func(index int) error {
+		// the record takes the values of the first given record with its key; every given record with that key has
+		// found its record and is not inserted
+		first := true
 		for j, rsv := range sortValuesInInsertRecords {
 			if sortValuesInEachRecord[index].EquivalentTo(rsv) {
-				for _, fidx := range updateIndices {
-					view.RecordSet[index][fidx] = records[j][fidx]
+				if first {
+					for _, fidx := range updateIndices {
+						view.RecordSet[index][fidx] = records[j][fidx]
+					}
 				}
-				replaced(j)
-				break
+				replaced(j, first)
+				first = false
 			}
 		}
 		return nil
